@@ -619,7 +619,11 @@ func (s *Store) Extract(a *Term, lo uint8, w uint8) *Term {
 		}
 		return s.Concat(s.Extract(hi, 0, lo+w-l.W), s.Extract(l, lo, l.W-lo))
 	case OpAnd, OpOr, OpXor:
-		return s.BV(a.Op, s.Extract(a.A[0], lo, w), s.Extract(a.A[1], lo, w))
+		// only with a constant operand (masks): pushing the extract into two
+		// symbolic operands hides the term the path condition talks about
+		if a.A[1].IsConst() || a.A[0].IsConst() {
+			return s.BV(a.Op, s.Extract(a.A[0], lo, w), s.Extract(a.A[1], lo, w))
+		}
 	case OpNot:
 		return s.Not(s.Extract(a.A[0], lo, w))
 	case OpIte:
